@@ -117,7 +117,9 @@ where
                                     println!("unexpected escape character");
                                 }
                             } else if char == "%" {
-                                // self.select_other_charset(yield_!(None));
+                                // ESC % <code> selects another coding system; the code
+                                // is consumed here, switching is done by the byte parser.
+                                co.yield_(None);
                             } else if "()".contains(&char) {
                                 let _code = co.yield_(None);
                                 if parser_state_cloned.lock().unwrap().use_utf8 {
@@ -242,7 +244,9 @@ where
                                     println!("unexpected escape character");
                                 }
                             } else if char == "%" {
-                                // self.select_other_charset(yield_!(None));
+                                // ESC % <code> selects another coding system; the code
+                                // is consumed here, switching is done by the byte parser.
+                                co.yield_(None);
                             } else if "()".contains(&char) {
                                 let _code = co.yield_(None);
                                 if parser_state_cloned.lock().unwrap().use_utf8 {
